@@ -57,6 +57,13 @@ def run(ctx):
         rs = set(impl[base + i * k: base + (i + 1) * k])
         if len(rs) != 1:
             ctx.violation("remote-decoding-depends-on-type", "document %s decodes differently per type parameter: %s" % (docs[i], rs), {"doc": docs[i]})
-    ctx.add_stream("L3-remote", len(ops), len(set(addrs)), samples=ops[:2] + ops[-2:], type_parameters=TYPES, oracle_failures=bad)
+    # one schema document mentioning handles with different type parameters: a single shared definition
+    pair_ops = ["remote-pair %d" % ti for ti in range(len(TYPES))]
+    for o, r in zip(pair_ops, c.run_lines(exe, pair_ops)):
+        if r != "defs=Addr,Remote":
+            bad += 1
+            ctx.violation("remote-schema-depends-on-type", "a schema mentioning Remote<Concrete>, Remote<%s> and Remote<Generic<u64>> defines %s, required one shared definition (defs=Addr,Remote)" % (
+                TYPES[int(o.split(" ")[1])], r), {"op": o, "observed": r})
+    ctx.add_stream("L3-remote", len(ops) + len(pair_ops), len(set(addrs)), samples=ops[:2] + ops[-2:], type_parameters=TYPES, oracle_failures=bad)
     ctx.cov["traces_validated_against_impl"] += len(ops)
     ctx.cov["rule"] = "address strings (fixed edge cases + random incl. escapes and non-ASCII) x 6 type parameters x owned/borrowed; 14 documents decoded under every type parameter"
